@@ -570,6 +570,51 @@ func TestRun(t *testing.T) {
 		}
 	})
 
+	// (iv-b) messages with very many options (the pooled API grows its option slice by retrying)
+	run(func(w *worker, id int) {
+		counts := []int{15, 16, 17, 31, 32, 33, 63, 64, 65, 127, 128, 129, 255, 256, 257, 511, 512, 513, 1023, 1024, 1025, 1026, 2047, 2048, 2049, 4096, 5000}
+		for ci, n := range counts {
+			if ci%nw != id {
+				continue
+			}
+			for variant := 0; variant < 4; variant++ {
+				var body []byte
+				for k := 0; k < n; k++ {
+					switch variant {
+					case 0: // n empty Uri-Path options
+						if k == 0 {
+							body = append(body, 0xb0)
+						} else {
+							body = append(body, 0x00)
+						}
+					case 1: // option numbers 1..n (mostly unknown, elective and critical), empty values
+						body = append(body, 0x10)
+					case 2: // all dropped: option number 0 repeated
+						body = append(body, 0x00)
+					case 3: // one-byte values, alternating repeat / step
+						body = append(body, byte(k%2)<<4|1, byte(k))
+					}
+				}
+				body = append(body, 0xff, 'p')
+				udpMsg := append([]byte{0x41, 0x01, 0x12, 0x34, 0x77}, body...)
+				w.checkUDP(udpMsg, "many-options")
+				var hdr []byte
+				switch bl := len(body); {
+				case bl < 13:
+					hdr = []byte{byte(bl)<<4 | 1}
+				case bl < 269:
+					hdr = []byte{0xd1, byte(bl - 13)}
+				default:
+					hdr = []byte{0xe1, byte((bl - 269) >> 8), byte(bl - 269)}
+				}
+				hdr = append(hdr, 0x01, 0x77)
+				w.checkTCP(append(hdr, body...), "many-options")
+				rec.Eval(fmt.Sprintf("many-options|%d|%d", n, variant))
+				rec.Count("many_option_messages", 2)
+			}
+		}
+	})
+
 	for _, w := range workers {
 		allCount.Add(w.n)
 		accCount.Add(w.acc)
